@@ -200,6 +200,10 @@ def strategy(ctx):
                 tt = ['prim', draw(st.sampled_from(['int', 'char', 'unsigned char', 'short', 'double', '_Bool',
                                                     'wchar_t', 'char16_t', 'long double', 'uint64_t',
                                                     'float _Complex']))]
+            elif draw(st.integers(0, 6)) == 0:
+                # a row type: 'P[][N]' / 'P[k][N]' / 'P(*)[N]' with (possibly short) rows
+                tt = ['arr', draw(st.integers(2, 4)),
+                      ['prim', draw(st.sampled_from(['int', 'char', 'short', 'double', 'unsigned char', 'wchar_t']))]]
             else:
                 tt = ['agg', draw(st.integers(0, len(unit) - 1))]
             flexible = tt[0] == 'agg' and agg.has_flex(unit[tt[1]])
@@ -564,6 +568,15 @@ def _one(ffi, unit, w, spec, ctx, group_has_known):
         X = agg.type_name(unit, target[1])
         canon = agg.canonical(unit, target[1])
         flexible = agg.has_flex(unit[target[1]])
+    elif target[0] == 'arr':
+        # row type, used through a typedef so that 'X[]' is an array of arrays
+        X = 'c20row_%s_%d' % (agg.strip_quals(target[2][1]).replace(' ', '_'), target[1])
+        try:
+            ffi.typeof(X)
+        except Exception:
+            ffi.cdef('typedef %s %s[%d];' % (target[2][1], X, target[1]))
+        canon = X
+        flexible = False
     else:
         X = target[1]
         canon = X
